@@ -1,6 +1,7 @@
 package main
 
 import (
+	"os/exec"
 	"encoding/json"
 	"flag"
 	"fmt"
@@ -229,10 +230,17 @@ func runCheck(prop, tier string, seed int) int {
 	withSpec := 0
 	covers := 0
 	frameSites := 0
+	autoInvs := 0
+	var notes []string
+	crossStats := map[string]map[string]int{}
 	for _, r := range results {
 		for _, p := range r.ex.Probs {
 			problems = append(problems, fmt.Sprintf("%s: %s", r.name, p.Msg))
 		}
+		for _, n := range r.ex.Notes {
+			notes = append(notes, fmt.Sprintf("%s: %s", r.name, n))
+		}
+		autoInvs += r.ex.AutoInvs
 		if r.ex.Spec != nil {
 			withSpec++
 		}
@@ -246,6 +254,15 @@ func runCheck(prop, tier string, seed int) int {
 		for k := range r.ex.Callees {
 			callees[k] = true
 		}
+		// a cover obligation is checked under the assumption of every earlier
+		// obligation of the function; when one of those failed, an unsatisfiable
+		// cover only repeats that failure and is not a contract bug
+		anyFailed := false
+		for _, o := range r.res {
+			if !o.O.Cover && o.Status != "proved" {
+				anyFailed = true
+			}
+		}
 		for _, o := range r.res {
 			if !o.O.Cover && (!kindMatches(ps.Kinds, o.O) || (len(ps.ExcludeK) > 0 && kindMatches(ps.ExcludeK, o.O))) {
 				continue
@@ -253,7 +270,7 @@ func runCheck(prop, tier string, seed int) int {
 			solverTime += o.Time
 			if o.O.Cover {
 				covers++
-				if o.Status == "cover-failed" {
+				if o.Status == "cover-failed" && !anyFailed {
 					problems = append(problems, fmt.Sprintf("%s: vacuity guard failed: %s (contradictory assumptions)", r.name, o.O.Name()))
 				}
 				continue
@@ -268,6 +285,12 @@ func runCheck(prop, tier string, seed int) int {
 			case "proved":
 				nDis++
 				bySolver[o.Solver]++
+				for sv, stt := range o.Cross {
+					if crossStats[sv] == nil {
+						crossStats[sv] = map[string]int{}
+					}
+					crossStats[sv][stt]++
+				}
 			case "failed":
 				violations = append(violations, o)
 			default:
@@ -331,6 +354,10 @@ func runCheck(prop, tier string, seed int) int {
 	// evidence
 	var trusted []string
 	for k := range externs {
+		if strings.HasPrefix(k, "assumed definition") {
+			trusted = append(trusted, k)
+			continue
+		}
 		trusted = append(trusted, "assumed contract of external: "+k)
 	}
 	sort.Strings(trusted)
@@ -362,10 +389,25 @@ func runCheck(prop, tier string, seed int) int {
 		"samples":                  samples,
 		"contract_files":           w.db.Files,
 		"contract_file_notes":      w.contractNotes,
+		"derived_loop_invariants":  autoInvs,
+		"notes":                    dedupe(notes),
 		"rule":                     "one obligation per potentially panicking instruction, per requires at a call site, per ensures at each return, per loop invariant (init/keep); an obligation is discharged when the negated goal is unsat",
 	}
 	if len(ps.Bounded) > 0 {
 		cov["bounded_standins"] = ps.Bounded
+	}
+	if tier == "thorough" {
+		cov["solver_cross_check"] = crossStats
+		cov["solver_cross_check_rule"] = "every obligation proved by one solver is also given to the other two (20 s each); a sat answer from any of them makes the obligation fail; unknown/timeout answers are recorded only"
+		if exit == 0 && os.Getenv("GOVC_NO_CORPUS") == "" {
+			corpus := runCorpus(dir, prop)
+			cov["must_fail_corpus"] = corpus
+			for _, c := range corpus {
+				if c.Status == "missed" {
+					fmt.Printf("SELFTEST-MISS property=%s the seeded change %s is not detected by this check\n", prop, c.Case)
+				}
+			}
+		}
 	}
 	assumptions := append([]string{
 		"64-bit int; byte strings and lists shorter than 2 GiB",
@@ -381,6 +423,9 @@ func runCheck(prop, tier string, seed int) int {
 		"assumptions": assumptions,
 		"wall_s":      round3(time.Since(t0).Seconds()),
 		"violations":  nviol,
+	}
+	for _, n := range dedupe(notes) {
+		fmt.Printf("NOTE property=%s %s\n", prop, n)
 	}
 	os.MkdirAll(filepath.Join(dir, "evidence"), 0o755)
 	data, _ := json.MarshalIndent(ev, "", " ")
@@ -427,6 +472,8 @@ type Replay struct {
 	TestOutput string   `json:"test_output,omitempty"`
 	Script     string   `json:"smt_script,omitempty"`
 	Notes      []string `json:"notes,omitempty"`
+	Package    string   `json:"package,omitempty"`   // directory of the package under test, relative to the repository
+	Expect     []string `json:"expected_output_lines,omitempty"` // GOVC-REPLAY lines that show the violation
 }
 
 func buildReplay(w *world, prop string, o *vc.OblResult, ex *vc.Exec, why string) *Replay {
@@ -447,3 +494,121 @@ func buildReplay(w *world, prop string, o *vc.OblResult, ex *vc.Exec, why string
 }
 
 var _ = smt.Size
+
+
+// ---- must-fail corpus (thorough tier) ----
+
+type corpusResult struct {
+	Case            string `json:"case"`
+	Status          string `json:"status"` // detected | missed | patch-does-not-apply | error
+	Violations      int    `json:"violations"`
+	ReplayConfirmed int    `json:"replay_confirmed"`
+	First           string `json:"first_violation,omitempty"`
+}
+
+// runCorpus applies every canary (reverse diff of a fix) and seeded change
+// recorded for prop to a scratch copy of the repository outside /repo and
+// /verif, runs this property's quick check on the copy and expects a
+// VIOLATION.  The copy is removed afterwards.
+func runCorpus(dir, prop string) []corpusResult {
+	var out []corpusResult
+	type cse struct{ name, patch string }
+	var cases []cse
+	var known knownFile
+	if data, err := os.ReadFile(filepath.Join(dir, "known_findings.json")); err == nil {
+		json.Unmarshal(data, &known)
+	}
+	canaries, _ := filepath.Glob(filepath.Join(dir, "selftest", "mutants", "canary_*.patch"))
+	sort.Strings(canaries)
+	for _, f := range canaries {
+		base := strings.TrimSuffix(filepath.Base(f), ".patch")
+		parts := strings.SplitN(base, "_", 3)
+		if len(parts) < 2 {
+			continue
+		}
+		for _, k := range known.Findings {
+			if k.ID != parts[1] {
+				continue
+			}
+			for _, p := range k.Properties {
+				if p == prop {
+					cases = append(cases, cse{base, f})
+				}
+			}
+		}
+	}
+	seeds, _ := filepath.Glob(filepath.Join(dir, "seeded", "*", "meta.json"))
+	sort.Strings(seeds)
+	for _, m := range seeds {
+		var meta struct {
+			Seed     string `json:"seed"`
+			Property string `json:"property"`
+		}
+		if data, err := os.ReadFile(m); err == nil && json.Unmarshal(data, &meta) == nil && meta.Property == prop {
+			cases = append(cases, cse{meta.Seed, filepath.Join(filepath.Dir(m), "patch.diff")})
+		}
+	}
+	if len(cases) == 0 {
+		return out
+	}
+	self, err := os.Executable()
+	if err != nil {
+		return append(out, corpusResult{Case: "*", Status: "error: " + err.Error()})
+	}
+	for _, cs := range cases {
+		res := corpusResult{Case: cs.name}
+		scratch, err := os.MkdirTemp("", "govc_corpus_")
+		if err != nil {
+			res.Status = "error: " + err.Error()
+			out = append(out, res)
+			continue
+		}
+		func() {
+			defer os.RemoveAll(scratch)
+			copyDir := filepath.Join(scratch, "repo")
+			if o, err := exec.Command("cp", "-a", repo, copyDir).CombinedOutput(); err != nil {
+				res.Status = "error: copy: " + strings.TrimSpace(string(o))
+				return
+			}
+			os.RemoveAll(filepath.Join(copyDir, ".git"))
+			ap := exec.Command("patch", "-p1", "-s", "--no-backup-if-mismatch", "-i", cs.patch)
+			ap.Dir = copyDir
+			if o, err := ap.CombinedOutput(); err != nil {
+				res.Status = "patch-does-not-apply"
+				_ = o
+				return
+			}
+			vd := filepath.Join(scratch, "verif")
+			os.MkdirAll(vd, 0o755)
+			os.Symlink(filepath.Join(dir, "contracts"), filepath.Join(vd, "contracts"))
+			if data, err := os.ReadFile(filepath.Join(dir, "known_findings.json")); err == nil {
+				os.WriteFile(filepath.Join(vd, "known_findings.json"), data, 0o644)
+			}
+			cmd := exec.Command(self, "check", "--property", prop, "--tier", "quick")
+			cmd.Env = append(os.Environ(), "GOVC_REPO="+copyDir, "VERIF_DIR="+vd, "GOVC_NO_CORPUS=1")
+			o, _ := cmd.CombinedOutput()
+			for _, l := range strings.Split(string(o), "\n") {
+				if strings.HasPrefix(l, "VIOLATION ") {
+					res.Violations++
+					if !strings.HasSuffix(strings.TrimSpace(l), "no-failing-input-found") {
+						res.ReplayConfirmed++
+					}
+					if res.First == "" {
+						l = strings.ReplaceAll(l, scratch, "<scratch>")
+						if len(l) > 300 {
+							l = l[:300]
+						}
+						res.First = l
+					}
+				}
+			}
+			if res.Violations > 0 {
+				res.Status = "detected"
+			} else {
+				res.Status = "missed"
+			}
+		}()
+		out = append(out, res)
+	}
+	return out
+}
